@@ -36,7 +36,7 @@ MODULE = 'SshAudit.Props.C15'
 NAMESPACE = 'SshAudit.C15'
 THEOREMS = ['output_runs_clean', 'render_eq_closed', 'stdout_eq', 'status_cfg_free', 'sections_level_free', 'level_filter_section', 'section_at_info',
             'level_filter', 'render_at_info', 'level_only_deletes', 'level_lines_pass', 'level_keeps_passing', 'stdout_nonblank_only_deletes',
-            'd32_blank_line_added', 'stdout_all_lines_false', 'stdout_quiet_only_deletes', 'algPairs_key', 'findings_cfg_free', 'batch_same_findings',
+            'd32_blank_line_added', 'empty_report_blank_line', 'stdout_all_lines_false', 'stdout_quiet_only_deletes', 'algPairs_key', 'findings_cfg_free', 'batch_same_findings',
             'colour_same_findings', 'verbose_same_findings', 'finding_level', 'algLines_ordered', 'report_lines_ordered', 'finding_text',
             'colour_strip_section', 'colour_strip', 'colour_strip_exact', 'json_once', 'json_every_level', 'json_option_free', 'json_stdout_quiet',
             'json_stdout_verbose', 'json_single_document_false', 'json_error_path', 'json_error_not_single', 'json_info_perm_text']
@@ -488,7 +488,8 @@ SERVERS = {
     'mixed': dict(kex=('curve25519-sha256', 'diffie-hellman-group14-sha1'), key=('ssh-ed25519',), enc=('aes256-ctr', '3des-cbc'), mac=('hmac-sha2-256', 'hmac-md5')),
     'clean': dict(kex=('sntrup761x25519-sha512@openssh.com',), key=('ssh-ed25519',), enc=('aes256-gcm@openssh.com',), mac=('hmac-sha2-256-etm@openssh.com',)),
     'warnonly': dict(kex=('curve25519-sha256',), key=('ssh-ed25519',), enc=('aes256-ctr',), mac=('hmac-sha2-256',)),
-    'unknown': dict(kex=('curve25519-sha256', 'zz-newkex@example.org'), key=('ssh-ed25519',), enc=('aes256-ctr',), mac=('hmac-sha2-512-etm@openssh.com',), banner=b'SSH-2.0-dropbear_2022.83'),
+    'unknown': dict(kex=('curve25519-sha256', 'zz-newkex@example.org'), key=('ssh-ed25519',), enc=('aes256-ctr', 'zz-newcipher@example.org', 'yy-cipher2'),
+                    mac=('hmac-sha2-512-etm@openssh.com', 'xx-mac@example.org'), banner=b'SSH-2.0-dropbear_2022.83'),
 }
 
 
@@ -603,6 +604,8 @@ def oracle_main(runs, server_name, fault):
                 extra = [l for l in lines if l not in info_lines]
                 if extra == [''] * len(extra) and o['verbose']:
                     fail('level_adds_blank_line_verbose', o, {'stdout_head': text[:80]}, 'a sub-sequence of the info-level stdout (no line the info-level output lacks)')
+                elif lines == ['']:
+                    fail('level_adds_blank_line_empty_report', o, {'stdout': text}, 'a sub-sequence of the info-level stdout (nothing left at this level: no output)')
                 else:
                     fail('level_adds_or_alters_line', o, {'lines_not_in_info_output': extra[:3]}, 'a sub-sequence of the info-level stdout')
             nb, nbi = [l for l in lines if l != ''], [l for l in info_lines if l != '']
@@ -832,6 +835,8 @@ def run(ctx):
         lines, exp = [], []
         for sname, fault in cases:
             grid = GRID if (ctx.tier == 'thorough' or (sname, fault) in (('mixed', None), ('mixed', 'no_kexinit'))) else r.sample(GRID, 16)
+            if sname == 'warnonly':     # nothing is left at -l fail: the report is empty
+                grid = grid + [g for g in GRID if okey(g) in ((True, False, False, 'fail', 0), (True, False, False, 'info', 0)) and g not in grid]
             runs = {}
             docs = {}
             for o in grid:
